@@ -115,6 +115,7 @@ def gen_model(seed):
         "traits": traits,
         "contexts": contexts,
         "leftover": r.chance(2, 3),
+        "generic_objs": r.chance(1, 3),
         "group": r.chance(1, 3),
         "foreign_early": r.chance(1, 2),
         "foreign_names": r.chance(1, 2),
@@ -169,6 +170,28 @@ def render(model):
                 on = "CGlueTraitObj_%s_____%s______________%s_____%sRetTmp_%s" % (CONTAINERS[cont][0], vn, ctx, T, ctx)
                 w(OBJ_DOC + "typedef struct %s {\n    const struct %s *vtbl;\n    struct %s container;\n} %s;\n" % (on, vn, cn, on))
                 w("/**\n * Base CGlue trait object for trait %s.\n */\ntypedef struct %s %sBase_%s_____%s;\n" % (T, on, T, CONTAINERS[cont][0], ctx))
+    if model.get("generic_objs"):
+        # the same single-trait object also exposed generically over the context (cbindgen keeps a
+        # `Context`-parametrised copy next to the concrete ones); cbindgen's mangling puts
+        # `Context__` before the next argument and 11 underscores in the object name
+        t = model["traits"][0]
+        T = t["name"]
+        cont = t["conts"][0]
+        w("\n" + ZST_DOC + "typedef struct %sRetTmp_Context %sRetTmp_Context;\n" % (T, T))
+        cn = "CGlueObjContainer_%s_____Context__%sRetTmp_Context" % (CONTAINERS[cont][0], T)
+        w(CONT_DOC + "typedef struct %s {\n    %s\n    Context context;\n    struct %sRetTmp_Context ret_tmp;\n} %s;\n" % (cn, CONTAINERS[cont][1], T, cn))
+        vn = "%sVtbl_%s" % (T, cn)
+        lines = []
+        for (fname, kind, args, ret) in t["funcs"]:
+            if kind == "own" and cont != "Box":
+                continue
+            recv = {"ref": "const struct %s *cont" % cn, "mut": "struct %s *cont" % cn, "own": "struct %s cont" % cn}[kind]
+            lines.append("    %s (*%s)(%s);" % (ret, fname, ", ".join([recv] + ["%s %s" % a for a in args])))
+        if not lines:
+            lines.append("    void (*%s_noop)(const struct %s *cont);" % (T.lower(), cn))
+        w(VTBL_DOC % T + "typedef struct %s {\n%s\n} %s;\n" % (vn, "\n".join(lines), vn))
+        on = "CGlueTraitObj_%s_____%s___________Context__%sRetTmp_Context" % (CONTAINERS[cont][0], vn, T)
+        w(OBJ_DOC + "typedef struct %s {\n    const struct %s *vtbl;\n    struct %s container;\n} %s;\n\n" % (on, vn, cn, on))
     if model["leftover"]:
         # a structure cbindgen left generic over the context
         w("/**\n * Holder that is generic over the context.\n */\ntypedef struct Holder_____c_void__Context {\n    void *instance;\n    Context context;\n    uint32_t flags;\n} Holder_____c_void__Context;\n\n")
@@ -193,6 +216,7 @@ def describe(model):
         "traits": [{"name": t["name"], "containers": t["conts"], "functions": [(f[0], f[1], len(f[2]), f[3]) for f in t["funcs"]]} for t in model["traits"]],
         "contexts": model["contexts"],
         "context_generic_leftover": model["leftover"],
+        "context_generic_trait_object": model.get("generic_objs", False),
         "foreign_early": model["foreign_early"],
         "foreign_cglue_like_names": model["foreign_names"],
         "include_guard": model["guard"],
